@@ -106,7 +106,8 @@ def opC19Judge (j : Json) : Json :=
     let o := get j "start_obs"
     let so : Spec.C19.StartObs :=
       { died := bool o "died", panicked := bool o "panicked", rejected := bool o "rejected",
-        loaded := bool o "loaded", late := (arr o "late").toList.map limitsOf, timeoutMs := nat o "timeout_ms" }
+        loaded := bool o "loaded", late := (arr o "late").toList.map limitsOf, timeoutMs := nat o "timeout_ms",
+        silent := bool o "silent" }
     Json.mkObj [("holds", Spec.C19.startupObsHolds so), ("class", startOutcomeName (Spec.C19.classify so))]
   else if !(isNull (get j "outcome")) then
     Json.mkObj [("holds", Spec.C19.startupHolds (Spec.C19.StartOutcome.ofString (str j "outcome")))]
